@@ -2,9 +2,9 @@
    reported with: composition of the walk's enumeration (EnumProofs.v) with
    the matcher of C05 (Match/MatchProofs.v: path_complete) and the tree
    dispatch of C04 (Ports/TreeProofs.v: tree_exactly_one_leaf).
-   Names of the shape the library's macros produce: sub-tree ports one
-   component "text/" or "text#N/" (their callbacks strip one component), leaf
-   ports any sequence of literal text and '#N'. *)
+   Sub-tree ports: one or more components "text/" or "text#N/" (the recursion
+   callbacks strip as many components as the matched name has - SNIP after the
+   fix, DispatchModel.snipk); leaf ports any sequence of literal text and '#N'. *)
 From Coq Require Import List ZArith Bool Arith Lia.
 From RtoscV Require Import Match.PatSpec Match.MatchModel Match.MatchProofs
      Ports.DispatchModel Ports.DispatchProofs Ports.TreeProofs
@@ -173,33 +173,151 @@ Proof.
     rewrite ?app_nil_r, <- ?app_assoc; reflexivity.
 Qed.
 
-Lemma subtree_matches c ty x rest :
-  dcomp c -> In x (expand (comps_segs [c])) -> addr_ok (x ++ rest) -> nul_free ty ->
-  rtosc_match (flatten (comps_segs [c]) ++ []) (x ++ rest) ty = Some (true, Some rest) /\
-  snip (x ++ rest) = rest.
+(* ---- a sub-tree name of several components "a#3/b#2/c/" ------------------------------- *)
+(* the pattern's segments: the components joined by "/", without the final '/' *)
+Fixpoint comps_conv (cs : list comp) : list NameModel.seg :=
+  match cs with
+  | [] => []
+  | c :: r => comp_conv c ++ match r with [] => [] | _ :: _ => NameModel.Lit [47] :: comps_conv r end
+  end.
+
+Lemma comps_segs_cons c r : comps_segs (c :: r) = comp_segs c ++ comps_segs r.
+Proof. reflexivity. Qed.
+
+Lemma comps_segs_one c : comps_segs [c] = comp_segs c.
+Proof. unfold comps_segs. cbn [flat_map]. apply app_nil_r. Qed.
+
+Lemma dchar47 : Forall dchar [47].
+Proof. constructor; [unfold dchar; lia | constructor]. Qed.
+
+Lemma comps_conv_wf cs : Forall dcomp cs -> dsegs_wf (comps_conv cs).
 Proof.
-  intros Hc Hx Haddr Hn. destruct (comp_expand c x Hx) as [y [Hy ->]].
-  pose proof (comp_conv_wf c Hc) as Hw.
-  set (p := {| segs := map conv (comp_conv c); subtree := true; types := None |}).
-  assert (Hr : flatten (comps_segs [c]) ++ [] = PatSpec.render p).
-  { unfold PatSpec.render, render_tail, p. cbn [segs subtree types render_types app]. rewrite render_conv, comp_flatten, !app_nil_r. reflexivity. }
-  rewrite Hr. rewrite <- app_assoc. cbn [app].
-  assert (Hns : ~ In 47 y).
-  { destruct Hc as [_ [_ [Hns _]]]. destruct c as [t [n|]]; cbn [comp_conv expand fst] in *.
-    - apply in_map_iff in Hy. destruct Hy as [z [<- Hz]]. apply in_flat_map in Hz. destruct Hz as [i [_ Hz]].
-      destruct Hz as [<-|[]]. rewrite app_nil_r. intros H. apply in_app_or in H. destruct H as [H|H]; [exact (Hns H)|].
-      destruct (dec_digits (Z.of_nat i) ltac:(lia)) as [Hd _]. unfold digits in Hd. rewrite Forall_forall in Hd.
-      specialize (Hd 47 H). discriminate.
-    - destruct Hy as [<-|[]]. rewrite app_nil_r. exact Hns. }
-  split; [|apply snip_app_noslash; exact Hns].
-  assert (Hwf : wf_pat p).
-  { unfold wf_pat, p. cbn [segs subtree types]. repeat split;
-      [apply conv_seg_ok; exact Hw | apply conv_enum_sep; exact Hw | intros E; discriminate]. }
-  rewrite (rtosc_match_types p (y ++ 47 :: rest) ty rest I Hn); [reflexivity|].
-  apply path_complete; [exact Hwf | intros l Hl'; exfalso; exact (conv_no_alt _ _ Hl')
-                        | apply conv_enum_delimited; exact Hw
-                        | rewrite <- app_assoc in Haddr; exact Haddr |].
-  unfold path_spec, p. cbn [subtree segs]. exists y. split; [apply expand_spells; assumption | reflexivity].
+  induction cs as [|c r IH]; intros H; [exact I|]. inversion H as [|? ? Hc Hr]; subst.
+  specialize (IH Hr). destruct Hc as [Hne [Hc [_ [Hsd Hn]]]].
+  destruct c as [t [n|]]; destruct r as [|c' r']; cbn [comps_conv comp_conv app fst snd dsegs_wf] in *.
+  - repeat split; auto; lia.
+  - repeat split; auto; try lia; try discriminate. apply dchar47.
+  - repeat split; auto.
+  - repeat split; auto; try discriminate. apply dchar47.
+Qed.
+
+Lemma comps_flatten cs : cs <> [] -> flatten (comps_segs cs) = flatten (comps_conv cs) ++ [47].
+Proof.
+  induction cs as [|c r IH]; intros Hne; [congruence|].
+  rewrite comps_segs_cons, flatten_app, <- (comps_segs_one c), comp_flatten.
+  destruct r as [|c' r']; cbn [comps_conv].
+  - cbn [comps_segs flat_map flatten map concat]. rewrite !app_nil_r. reflexivity.
+  - rewrite IH by discriminate. rewrite flatten_app, flatten_cons. cbn [NameModel.render_seg].
+    rewrite <- !app_assoc. reflexivity.
+Qed.
+
+Lemma expand_app a : forall b x,
+  In x (expand (a ++ b)) <-> exists u v, In u (expand a) /\ In v (expand b) /\ x = u ++ v.
+Proof.
+  induction a as [|[s|n] a IH]; intros b x; cbn [app expand].
+  - split.
+    + intros H. exists [], x. split; [left; reflexivity | split; [exact H | reflexivity]].
+    + intros [u [v [[<-|[]] [Hv ->]]]]. exact Hv.
+  - rewrite in_map_iff. split.
+    + intros [z [<- Hz]]. apply IH in Hz. destruct Hz as [u [v [Hu [Hv ->]]]].
+      exists (s ++ u), v. split; [apply in_map; exact Hu | split; [exact Hv | apply app_assoc]].
+    + intros [u [v [Hu [Hv ->]]]]. apply in_map_iff in Hu. destruct Hu as [u' [<- Hu']].
+      exists (u' ++ v). split; [apply app_assoc | apply IH; eauto].
+  - rewrite in_flat_map. split.
+    + intros [i [Hi Hz]]. apply in_map_iff in Hz. destruct Hz as [z [<- Hz]]. apply IH in Hz.
+      destruct Hz as [u [v [Hu [Hv ->]]]].
+      exists (NameModel.dec (Z.of_nat i) ++ u), v. split; [|split; [exact Hv | apply app_assoc]].
+      apply in_flat_map. exists i. split; [exact Hi | apply in_map; exact Hu].
+    + intros [u [v [Hu [Hv ->]]]]. apply in_flat_map in Hu. destruct Hu as [i [Hi Hu]].
+      apply in_map_iff in Hu. destruct Hu as [u' [<- Hu']].
+      exists i. split; [exact Hi|]. apply in_map_iff. exists (u' ++ v). split; [apply app_assoc | apply IH; eauto].
+Qed.
+
+Lemma comps_expand cs : cs <> [] -> forall x, In x (expand (comps_segs cs)) ->
+  exists y, In y (expand (comps_conv cs)) /\ x = y ++ [47].
+Proof.
+  induction cs as [|c r IH]; intros Hne x Hx; [congruence|].
+  rewrite comps_segs_cons in Hx. apply expand_app in Hx. destruct Hx as [u [v [Hu [Hv ->]]]].
+  rewrite <- (comps_segs_one c) in Hu. destruct (comp_expand c u Hu) as [y [Hy ->]].
+  destruct r as [|c' r']; cbn [comps_conv].
+  - cbn [comps_segs flat_map expand] in Hv. destruct Hv as [<-|[]].
+    exists y. rewrite !app_nil_r. split; [exact Hy | reflexivity].
+  - destruct (IH ltac:(discriminate) v Hv) as [y' [Hy' ->]].
+    exists (y ++ [47] ++ y'). split; [|rewrite <- !app_assoc; reflexivity].
+    apply expand_app. exists y, ([47] ++ y'). split; [exact Hy|]. split; [|reflexivity].
+    cbn [expand]. apply in_map. exact Hy'.
+Qed.
+
+(* one component's expansions hold no '/' in front of their last character *)
+Lemma comp_expand_noslash c y : dcomp c -> In y (expand (comp_conv c)) -> ~ In 47 y.
+Proof.
+  intros Hc Hy. destruct Hc as [_ [_ [Hns _]]]. destruct c as [t [n|]]; cbn [comp_conv expand fst] in *.
+  - apply in_map_iff in Hy. destruct Hy as [z [<- Hz]]. apply in_flat_map in Hz. destruct Hz as [i [_ Hz]].
+    destruct Hz as [<-|[]]. rewrite app_nil_r. intros H. apply in_app_or in H. destruct H as [H|H]; [exact (Hns H)|].
+    destruct (dec_digits (Z.of_nat i) ltac:(lia)) as [Hd _]. unfold digits in Hd. rewrite Forall_forall in Hd.
+    specialize (Hd 47 H). discriminate.
+  - destruct Hy as [<-|[]]. rewrite app_nil_r. exact Hns.
+Qed.
+
+(* SNIP after the fix skips exactly the components of the name *)
+Lemma comps_snipn cs : Forall dcomp cs -> forall x rest, In x (expand (comps_segs cs)) ->
+  snipn (length cs) (x ++ rest) = rest.
+Proof.
+  induction cs as [|c r IH]; intros H x rest Hx.
+  - cbn [comps_segs flat_map expand] in Hx. destruct Hx as [<-|[]]. reflexivity.
+  - inversion H as [|? ? Hc Hr]; subst.
+    rewrite comps_segs_cons in Hx. apply expand_app in Hx. destruct Hx as [u [v [Hu [Hv ->]]]].
+    rewrite <- (comps_segs_one c) in Hu. destruct (comp_expand c u Hu) as [y [Hy ->]].
+    cbn [length snipn]. rewrite <- !app_assoc. cbn [app].
+    rewrite (snip_app_noslash y (v ++ rest) (comp_expand_noslash c y Hc Hy)). apply IH; assumption.
+Qed.
+
+Lemma dchar_clean t : Forall dchar t -> ~ In 58 t.
+Proof. intros H Hin. rewrite Forall_forall in H. specialize (H _ Hin). unfold dchar in H. lia. Qed.
+
+Lemma dec_clean n : 0 <= n -> ~ In 47 (NameModel.dec n) /\ ~ In 58 (NameModel.dec n).
+Proof.
+  intros Hn. destruct (dec_digits n Hn) as [Hd _]. unfold digits in Hd. rewrite Forall_forall in Hd.
+  split; intros H; specialize (Hd _ H); discriminate.
+Qed.
+
+Lemma count_slash_comps cs rest : Forall dcomp cs ->
+  count_slash (flatten (comps_segs cs) ++ rest) = (length cs + count_slash rest)%nat.
+Proof.
+  induction cs as [|c r IH]; intros H; [reflexivity|]. inversion H as [|? ? Hc Hr]; subst.
+  rewrite comps_segs_cons, flatten_app, <- app_assoc. cbn [length]. rewrite Nat.add_succ_l, <- (IH Hr). clear IH.
+  destruct Hc as [_ [Hc [Hns [_ Hn]]]]. pose proof (dchar_clean _ Hc) as H58.
+  destruct c as [t [n|]]; cbn [comp_segs flatten map concat NameModel.render_seg fst snd] in *;
+    rewrite ?app_nil_r, <- ?app_assoc.
+  - rewrite count_slash_app_clean by assumption. cbn [app count_slash Z.eqb Pos.eqb].
+    destruct (dec_clean n ltac:(lia)) as [A B]. rewrite count_slash_app_clean by assumption. reflexivity.
+  - rewrite count_slash_app_clean by assumption. reflexivity.
+Qed.
+
+Lemma subtree_matches cs ty x rest :
+  cs <> [] -> Forall dcomp cs -> In x (expand (comps_segs cs)) -> addr_ok (x ++ rest) -> nul_free ty ->
+  rtosc_match (flatten (comps_segs cs) ++ []) (x ++ rest) ty = Some (true, Some rest) /\
+  snipk (flatten (comps_segs cs) ++ []) (x ++ rest) = rest.
+Proof.
+  intros Hne Hc Hx Haddr Hn. split.
+  - destruct (comps_expand cs Hne x Hx) as [y [Hy ->]].
+    pose proof (comps_conv_wf cs Hc) as Hw.
+    set (p := {| segs := map conv (comps_conv cs); subtree := true; types := None |}).
+    assert (Hr : flatten (comps_segs cs) ++ [] = PatSpec.render p).
+    { unfold PatSpec.render, render_tail, p. cbn [segs subtree types render_types app].
+      rewrite render_conv, (comps_flatten cs Hne), !app_nil_r. reflexivity. }
+    rewrite Hr. rewrite <- app_assoc. cbn [app].
+    assert (Hwf : wf_pat p).
+    { unfold wf_pat, p. cbn [segs subtree types]. repeat split;
+        [apply conv_seg_ok; exact Hw | apply conv_enum_sep; exact Hw | intros E; discriminate]. }
+    rewrite (rtosc_match_types p (y ++ 47 :: rest) ty rest I Hn); [reflexivity|].
+    apply path_complete; [exact Hwf | intros l Hl'; exfalso; exact (conv_no_alt _ _ Hl')
+                          | apply conv_enum_delimited; exact Hw
+                          | rewrite <- app_assoc in Haddr; exact Haddr |].
+    unfold path_spec, p. cbn [subtree segs]. exists y. split; [apply expand_spells; assumption | reflexivity].
+  - unfold snipk. rewrite (count_slash_comps cs [] Hc). cbn [count_slash]. rewrite Nat.add_0_r.
+    replace (Nat.max 1 (length cs)) with (length cs) by (destruct cs; [congruence | cbn [length]; lia]).
+    apply comps_snipn; assumption.
 Qed.
 
 (* ---- the structured tree as a C04 tree ------------------------------------------------ *)
@@ -246,7 +364,7 @@ Section ToTree.
     match p with
     | SPort sg a _ None => dsegs_wf sg /\ last_not_slash (map conv sg)
     | SPort sg a _ (Some l) =>
-        a = [] /\ (exists c, sg = comps_segs [c] /\ dcomp c) /\ table_disjoint l /\
+        a = [] /\ (exists cs, sg = comps_segs cs /\ cs <> [] /\ Forall dcomp cs) /\ table_disjoint l /\
         (fix all (l : list sport) : Prop := match l with [] => True | x :: r => dok x /\ all r end) l
     end.
 
@@ -274,10 +392,10 @@ Section ToTree.
     cbn [reaches] in H. destruct (nth_error l j) as [[sg args m [l'|]]|] eqn:E; [| |contradiction].
     - destruct H as [x [a' [Hx [-> H]]]].
       rewrite Forall_forall in Hl. pose proof (Hl _ (nth_error_In _ _ E)) as Hq. cbn [dok] in Hq.
-      destruct Hq as [_ [[c [-> Hc]] [_ Hall]]].
+      destruct Hq as [_ [[cs [-> [Hne Hc]]] [_ Hall]]].
       apply Forall_app. split; [|eapply IH; [apply dok_all; exact Hall | exact H]].
-      destruct (comp_expand c x Hx) as [y [Hy ->]]. apply Forall_app. split.
-      + apply (expand_chars achar _ dchar_achar digit_achar (comp_conv_wf c Hc) y Hy).
+      destruct (comps_expand cs Hne x Hx) as [y [Hy ->]]. apply Forall_app. split.
+      + apply (expand_chars achar _ dchar_achar digit_achar (comps_conv_wf cs Hc) y Hy).
       + constructor; [unfold achar; lia | constructor].
     - destruct H as [_ [Ha _]]. rewrite Forall_forall in Hl. pose proof (Hl _ (nth_error_In _ _ E)) as Hq.
       cbn [dok] in Hq. apply (expand_chars achar sg dchar_achar digit_achar (proj1 Hq) a Ha).
@@ -297,15 +415,15 @@ Section ToTree.
     - (* a sub-tree port *)
       destruct H as [x [a' [Hx [-> H]]]].
       rewrite Forall_forall in Hl. pose proof (Hl _ (nth_error_In _ _ E)) as Hq. cbn [dok] in Hq.
-      destruct Hq as [-> [[c [-> Hc]] [Hd' Hall]]].
+      destruct Hq as [-> [[cs [-> [Hne Hc]]] [Hd' Hall]]].
       assert (Haddr : addr_ok (x ++ a')) by (eapply Forall_impl; [|exact Hch]; intros ch Hc'; apply Hc').
       assert (Hty : nul_free ty).
       { clear - H. revert l' a' H. induction rest as [|j' r IHr]; intros l' a' H; [contradiction|].
         cbn [reaches] in H. destruct (nth_error l' j') as [[sg args m [l''|]]|]; [| |contradiction].
         - destruct H as [_ [a'' [_ [_ H]]]]. eapply IHr. exact H.
         - destruct H as [_ [_ [tys [_ [_ [Hn _]]]]]]. exact Hn. }
-      destruct (subtree_matches c ty x a' Hc Hx Haddr Hty) as [Hm Hs].
-      cbn [TreeProofs.addressed]. exists (flatten (comps_segs [c]) ++ []), true, a'. split.
+      destruct (subtree_matches cs ty x a' Hne Hc Hx Haddr Hty) as [Hm Hs].
+      cbn [TreeProofs.addressed]. exists (flatten (comps_segs cs) ++ []), true, a'. split.
       + unfold sole_match, to_tree. cbn [tab_of mk_table t_ports]. split; [|split; [exact Hm|]].
         * rewrite nth_error_map', E. reflexivity.
         * intros n' name' sub' Hn' En' pe' Hm'. rewrite nth_error_map' in En'.
@@ -456,7 +574,7 @@ Proof.
       constructor; [|constructor]. repeat split; try discriminate; try reflexivity; cbn; lia.
     + split; [|exact I]. split; [split; [right|]; reflexivity|]. cbn. repeat split; try discriminate; try reflexivity; lia.
   - constructor; [|constructor]. cbn [dok ex_d]. split; [reflexivity|]. split.
-    + eexists. split; [reflexivity|]. unfold dcomp. cbn [fst snd].
+    + eexists. split; [reflexivity|]. split; [discriminate|]. constructor; [|constructor]. unfold dcomp. cbn [fst snd].
       split; [discriminate|]. split; [constructor; [unfold dchar; lia | constructor]|].
       split; [intros [H|[]]; discriminate|]. split; [reflexivity | lia].
     + split; [apply singleton_disjoint|]. split; [|exact I].
